@@ -383,3 +383,40 @@ def collectFees (feeI feeG feeP vault : Int) : Res Collected := do
   .ok { feeI := feeI', feeG := feeG', feeP := feeP', toInsurance := i, toGroup := g, toProgram := p }
 
 end Mfi.Bank
+
+namespace Mfi.Bank
+open Mfi Mfi.Fx Mfi.Gen
+
+/-! ### bankruptcy (instructions/marginfi_group/handle_bankruptcy.rs, after the eligibility check) -/
+
+structure BankruptcyOut where
+  bank : Bank
+  bal : Balance
+  badDebt : Int        -- the account's debt in this bank after accrual (bits)
+  covered : Int        -- part covered by the insurance fund (bits)
+  socialized : Int     -- part socialized among depositors (bits)
+  coveredUp : Int      -- whole tokens moved insurance vault → liquidity vault (covered, rounded up)
+  kill : Bool          -- deposits fully consumed: the bank is shut for good
+  deriving DecidableEq, Repr
+
+/-- everything `lending_pool_handle_bankruptcy` does to the books once the account was found bankrupt and
+    the bank was accrued: `available` = what the insurance vault can deliver (whole tokens, after any
+    transfer fee), `b`/`bal` = the accrued bank and the account's position in it -/
+def settleBankruptcy (b : Bank) (bal : Balance) (available now : Int) : Res BankruptcyOut := do
+  let badDebt ← liabAmount b bal.l
+  let _ ← chk (badDebt > ZERO_AMOUNT_THRESHOLD) E.BalanceNotBadDebt
+  let avail := ofInt available
+  let covered := min badDebt avail
+  let rest ← Interest.subP badDebt covered
+  let socialized := max rest 0
+  let up ← math (ceil? covered)
+  let coveredUp ← math (toU64? up)
+  let (b1, kill) ← socializeLoss b socialized
+  let (b2, bal2) ← increaseBalance b1 bal now badDebt .repayOnly
+  .ok { bank := b2, bal := bal2, badDebt, covered, socialized, coveredUp, kill }
+
+/-- who may settle bad debt on a bank -/
+def bankruptcyAuthorized (permissionless : Bool) (signer admin riskAdmin : Nat) : Bool :=
+  permissionless || signer == riskAdmin || signer == admin
+
+end Mfi.Bank
